@@ -88,6 +88,9 @@ pub enum Seg {
     Exe { len: u32, file: u8, off: u32 },
     /// random data with a sprinkling of short repeats (mixed compressibility)
     Mixed { len: u32, seed: u64 },
+    /// random bytes over an alphabet of `alphabet` symbols: a short match at every position, none of them
+    /// long (keeps the optimal parser inside one long pricing pass)
+    Tiles { len: u32, alphabet: u8, seed: u64 },
 }
 
 impl Seg {
@@ -100,7 +103,8 @@ impl Seg {
             | Seg::Text { len, .. }
             | Seg::Opcode { len, .. }
             | Seg::Exe { len, .. }
-            | Seg::Mixed { len, .. } => *len,
+            | Seg::Mixed { len, .. }
+            | Seg::Tiles { len, .. } => *len,
         }
     }
 }
@@ -176,6 +180,14 @@ impl Data {
                         for i in 0..len as usize {
                             out.push(f[(o + i) % f.len()]);
                         }
+                    }
+                }
+                Seg::Tiles { len, alphabet, seed } => {
+                    let mut r = Prng::new(seed);
+                    let a = alphabet.clamp(2, 16) as u64;
+                    let base = (seed >> 56) as u8;
+                    for _ in 0..len {
+                        out.push(base.wrapping_add((r.below(a) as u8).wrapping_mul(17)));
                     }
                 }
                 Seg::Mixed { len, seed } => {
@@ -380,8 +392,27 @@ pub fn seg_strategy(max_len: u32) -> BoxedStrategy<Seg> {
             .prop_map(|(len, arch, seed)| Seg::Opcode { len, arch, seed }),
         1 => (l.clone(), 0u8..8, any::<u32>())
             .prop_map(|(len, file, off)| Seg::Exe { len, file, off }),
-        3 => (l, any::<u64>()).prop_map(|(len, seed)| Seg::Mixed { len, seed }),
+        3 => (l.clone(), any::<u64>()).prop_map(|(len, seed)| Seg::Mixed { len, seed }),
+        1 => (l, 2u8..8, any::<u64>()).prop_map(|(len, alphabet, seed)| Seg::Tiles { len, alphabet, seed }),
     ]
+    .boxed()
+}
+
+/// Data that keeps the optimal parser in maximal pricing passes (a short match at every position) and then
+/// offers a match longer than MATCH_LEN_MAX: what the encoder emits then depends on the look-ahead it was given.
+pub fn long_pass_strategy(max_len: u32) -> BoxedStrategy<Data> {
+    proptest::collection::vec(
+        (4000u32..=max_len.max(4001), 2u8..7, any::<u64>(), 274u32..3000, 1u32..60_000),
+        1..5,
+    )
+    .prop_map(|v| {
+        let mut segs = vec![Seg::Rand { len: 1500, seed: v[0].2 ^ 0x55 }];
+        for (len, alphabet, seed, clen, dist) in v {
+            segs.push(Seg::Tiles { len, alphabet, seed });
+            segs.push(Seg::CopyBack { len: clen, dist: dist + len });
+        }
+        Data { segs }
+    })
     .boxed()
 }
 
